@@ -281,6 +281,36 @@ def run(chk):
             events.append({'tid': tid, 'ev': 'Compare', 'outcome': got2, 'expect': exp2, 'hasmessage': bool(msg2.strip()), 'mut': mut})
             detail[tid] = dict(detail[tid - 1], entry=entry, message=msg2[:300])
             tid += 1
+    # 3b. sortby with two keys: the same records in another order pass, a changed value still fails; the orders include
+    #     'ascending in one key only' (sorted by a group column, as a GROUP BY leaves a table)
+    for j in range(600 if thorough else 120):
+        ng, per = rnd.randint(2, 4), rnd.randint(2, 4)
+        recs_ = [(g_, v_) for g_ in range(ng) for v_ in rnd.sample(range(10, 99), per)]
+        base = pd.DataFrame({'g': [a_ for a_, _ in recs_], 'v': [b_ for _, b_ in recs_], 'x': [rnd.randint(0, 999) / 8.0 for _ in recs_],
+                             's': pd.Series([rnd.choice(['a', 'b', 'cc']) for _ in recs_], dtype=object)})
+        def arranged(df_, how):
+            if how == 'shuffled':
+                return df_.sample(frac=1.0, random_state=rnd.randint(0, 10**6)).reset_index(drop=True)
+            if how == 'by_g':
+                return df_.sample(frac=1.0, random_state=rnd.randint(0, 10**6)).sort_values('g', kind='stable').reset_index(drop=True)
+            if how == 'by_v':
+                return df_.sort_values('v').reset_index(drop=True)
+            return df_.sort_values(['g', 'v']).reset_index(drop=True)
+        rdf = arranged(base, rnd.choice(['shuffled', 'by_g', 'by_v', 'sorted']))
+        adf = arranged(base, rnd.choice(['shuffled', 'by_g', 'by_g', 'by_v', 'sorted']))
+        expect = 'pass'
+        if rnd.random() < 0.4:
+            adf.loc[rnd.randrange(len(adf)), 'x'] += 1.0
+            expect = 'fail'
+        keys = rnd.choice([['g', 'v'], ['v', 'g'], ['g', 'v', 'x']])
+        entry = rnd.choice(['check_dataframe', 'assertDataFramesEqual', 'parquet'])
+        if entry == 'parquet':
+            rdf, adf = rdf.drop(columns=['s']), adf.drop(columns=['s'])       # (object strings do not survive parquet: D23)
+        got, msg = fl.run_check(refobj, entry, adf, rdf, {'sortby': keys}, wd, tag='sb')
+        events.append({'tid': tid, 'ev': 'Compare', 'outcome': got, 'expect': expect, 'hasmessage': bool(msg.strip()), 'mut': 'sortby2'})
+        detail[tid] = {'kinds': {}, 'mutation': 'the same records in another order, sortby=%r%s' % (keys, '' if expect == 'pass' else ', one value changed'),
+                       'entry': entry, 'reference_head': rdf.head(6).to_dict(orient='list'), 'actual_head': adf.head(6).to_dict(orient='list'), 'message': msg[:300]}
+        tid += 1
     # 4. histories on one comparison object: explicit and default precisions interleaved ------------------------------
     nsess = 300 if thorough else 60
     for s_ in range(nsess):
